@@ -220,6 +220,7 @@ class Sequence:
         for msg in messages:
             abs.add_message(msg)
         self._abs = abs
+        self._abs_stale = False
         self.invalidate_rel()
 
     def overwrite_relative_messages(self, messages: list[Message]) -> None:
